@@ -43,6 +43,9 @@ type Scripter struct {
 	Received []*simbmc.Rx
 	// OnlySession, if set, restricts the script to requests of that session.
 	Match func(rx *simbmc.Rx) bool
+	// FinalCode, if non-zero, is the completion code FinalCC replies carry
+	// instead of FinalCCValue.
+	FinalCode byte
 }
 
 // Install hooks the scripter into the BMC (replacing any Intercept).
@@ -61,13 +64,19 @@ func (s *Scripter) Install(b *simbmc.BMC) {
 		}
 		s.Pos++
 		s.Applied = append(s.Applied, o)
-		ApplyOutcome(b, rx, o)
+		cc := byte(FinalCCValue)
+		if s.FinalCode != 0 {
+			cc = s.FinalCode
+		}
+		applyOutcome(b, rx, o, cc)
 	}
 }
 
 // ApplyOutcome rewrites rx.Replies according to the outcome. A request the BMC
 // could not parse gets no reply whatever the outcome says.
-func ApplyOutcome(b *simbmc.BMC, rx *simbmc.Rx, o Outcome) {
+func ApplyOutcome(b *simbmc.BMC, rx *simbmc.Rx, o Outcome) { applyOutcome(b, rx, o, FinalCCValue) }
+
+func applyOutcome(b *simbmc.BMC, rx *simbmc.Rx, o Outcome, finalCode byte) {
 	if rx.Msg == nil || rx.Msg.IsResponse() {
 		rx.Replies = nil
 		return
@@ -83,7 +92,7 @@ func ApplyOutcome(b *simbmc.BMC, rx *simbmc.Rx, o Outcome) {
 	case Final:
 		// keep the default reply
 	case FinalCC:
-		rx.Replies = reply(FinalCCValue, nil)
+		rx.Replies = reply(finalCode, nil)
 	case FinalTruncated:
 		// cut the default body to zero bytes (one byte when the command's
 		// response decoder has no minimum is still a valid cut for all layers
